@@ -331,6 +331,8 @@ struct RModel {
                 detachNode(nx);
                 continue;
             }
+            // DOM L2 Core, Node.normalize(): "... there are neither adjacent Text nodes nor empty Text nodes"
+            if (isText(k) && n[k].data.empty()) { detachNode(k); continue; }
             if (n[k].type == T_ELEM) normalize(k);
             i++;
         }
@@ -344,7 +346,7 @@ struct RModel {
         if (n[p].type == T_TEXT) return false;
         if (n[p].type == T_DOC) {
             if (n[c].type != T_ELEM) return false;
-            for (int k : n[p].kids) if (n[k].type == T_ELEM) return false;
+            for (int k : n[p].kids) if (n[k].type == T_ELEM && k != c) return false;   // moving the document element within its document is legal
             return true;
         }
         if (n[c].type == T_FRAG && n[c].kids.empty()) return true;
@@ -608,7 +610,7 @@ struct RModel {
             next = w.so < (int)n[parent].kids.size() ? n[parent].kids[w.so] : -1;
             if (n[parent].type == T_DOC) {
                 bool hasEl = false;
-                for (int k : n[parent].kids) if (n[k].type == T_ELEM) hasEl = true;
+                for (int k : n[parent].kids) if (n[k].type == T_ELEM && k != x) hasEl = true;   // re-inserting the document element itself is a move
                 if (n[x].type == T_FRAG) { out.unspec = true; inf.skipped = true; return false; }
                 if (n[x].type != T_ELEM || hasEl) { out.ex = 1; out.code = 3; return false; }
             }
